@@ -219,10 +219,16 @@ def run(eng, ctx, reader_side=True):
                     done = dnf_covers(conj, [bc for b in bufstores if b.seq < e.seq for bc in b.dnf])
                     ctx.check(done, "C11.D4", rv.qualname, f"{norm(e.node)}: data appended before success is reported", expected="buffer += <received data> on this path",
                               found="no append on the path " + guard_text(conj)[:80], **eng.loc(rv, e.node))
-        for e in sv.effects:
-            if e.kind == "return":
+        for e0 in sv.effects:
+            if e0.kind != "return":
+                continue
+            # a return reached on several paths (a status returned at one exit) is judged path by path
+            paths = [type("R", (), {"guards": tuple(cj), "handler": e0.handler, "term": e0.term, "node": e0.node})() for cj in e0.dnf] if len(e0.dnf or ()) > 1 else [e0]
+            for e in paths:
                 empty = any(c[0] == "cmp" and c[3] == ("const", 0) and ((c[1] == "==" and pol) or (c[1] == "!=" and not pol)) for c, pol in e.guards) or any(c == data and not pol for c, pol in e.guards)
-                if e.handler is not None or empty:
+                # the exception path of the try around recv(), once control has left the handler (a status variable set there), is a failure path too
+                via_handler = e.handler is not None or any(c[0] == "exc-path" and pol for c, pol in e.guards)
+                if via_handler or empty:
                     ctx.check(e.term == ("const", False), "C11.D4", rv.qualname, norm(e.node), expected="failure reported as False", found=show(e.term), **eng.loc(rv, e.node))
                 else:
                     ctx.check(e.term == ("const", True), "C11.D4", rv.qualname, norm(e.node), expected="success reported as True", found=show(e.term), **eng.loc(rv, e.node))
@@ -243,10 +249,22 @@ def run(eng, ctx, reader_side=True):
         ok = len(reads) == 1 and reads[0].term[3] == (("const", 1),) and not [c for c in reads[0].guards if c[0] != info.get("test")]
         ctx.check(ok, "C11.D5", rl.qualname, "one single-byte read per iteration", expected="self.read(1)", found=", ".join(show(e.term)[:30] for e in reads), **eng.loc(rl, info["node"]))
         rets = [e for e in sl.effects if e.kind == "return"]
-        if ok and len(rets) == 1 and rets[0].term[0] == "loopout":
-            var = rets[0].term[2]
+        # the line is returned after the loop (left by break / by its test), or from inside it at the points where a break would stand (`return line`)
+        post_r = [e for e in rets if not e.loops]
+        in_r = [e for e in rets if e.loops and e.loops[0] == lid]
+        var = None
+        if ok and len(post_r) == 1 and post_r[0].term[0] == "loopout":
+            var = post_r[0].term[2]
+        elif ok and not post_r and in_r:
+            d_ = reads[0].term
+            for n_ in sorted(info.get("assigned", ())):
+                lv = ("loop", lid, n_)
+                if all(all(leaf in (lv, ("bin", "+", lv, d_)) for _, leaf in leaves(e.term)) for e in in_r):
+                    var = n_
+        in_exits = [("break", type("S", (), {"env": {var: e.term}, "guards": tuple(e.guards)})()) for e in in_r] if var is not None else []
+        if ok and var is not None and all(e in post_r[:1] or e in in_r for e in rets):
             d = reads[0].term
-            ends = info.get("ends", []) + ([("fall-through", type("S", (), {"env": info.get("body_end"), "guards": ()})())] if not info.get("body_dead") else [])
+            ends = info.get("ends", []) + in_exits + ([("fall-through", type("S", (), {"env": info.get("body_end"), "guards": ()})())] if not info.get("body_dead") else [])
             for kind, st in ends:
                 v = st.env.get(var)
                 app = ("bin", "+", ("loop", lid, var), d)
@@ -263,7 +281,7 @@ def run(eng, ctx, reader_side=True):
                     pass
             ctx.check(info["pre"].get(var) == ("const", b""), "C11.D5", rl.qualname, "line starts empty", expected="b''", found=show(info["pre"].get(var, ("?",))), **eng.loc(rl, rl.node))
             # termination conditions: a break under empty read, a break under CRLF suffix
-            brk = [st for k, st in info.get("ends", []) if k == "break"]
+            brk = [st for k, st in info.get("ends", []) if k == "break"] + [st for _, st in in_exits]
             def last2(t, allowed):
                 return t[0] == "slice" and t[1] in allowed and t[2] == ("const", -2) and t[3] == ("const", None) and t[4] == ("const", None)
 
